@@ -50,8 +50,8 @@ func HarnessNextCheckpoint(n int) {
 type banRec struct{ banned []*peerpkg.Peer }
 
 func (b *banRec) UpdatePeerHeights(*chainhash.Hash, int32, *peerpkg.Peer) {}
-func (b *banRec) RelayInventory(*wire.InvVect, interface{})             {}
-func (b *banRec) BanPeer(p *peerpkg.Peer)                               { b.banned = append(b.banned, p) }
+func (b *banRec) RelayInventory(*wire.InvVect, interface{})               {}
+func (b *banRec) BanPeer(p *peerpkg.Peer)                                 { b.banned = append(b.banned, p) }
 
 // outcome kinds of one submitted header
 const (
